@@ -257,7 +257,7 @@ pub fn run(ctx: &Ctx) -> (Report, Meta) {
     let mut rep = run_cases(ctx, n_prog, &append_only_program);
     let mut c2 = ctx.clone();
     c2.seed ^= 0xd7;
-    rep.merge(run_cases(&c2, n_dry, &|c, i, r, rep| dry_run_case(c, i + 1_000_000, r, rep)));
+    rep.merge({ let mut cb = c2.clone(); cb.case_base = 1_000_000; run_cases(&cb, n_dry, &|c, i, r, rep| dry_run_case(c, i + 1_000_000, r, rep)) });
     let meta = Meta {
         level: "fault_enumeration",
         rule: "append-only: random programs of 3-10 public repository operations (backup, forget, prune with generated options, copy-into, merge(+delete), rewrite(+forget), repair index, repair snapshots(+delete), config changes) on a repository switched to append-only, with an ONLINE monitor in the storage universe that fires on any remove of a snapshot/index/pack file and on any overwrite with different bytes; commands the model classifies as destructive must return Err with zero mutating storage events. dry-run: every command with a dry-run switch (+ prune_plan) on intact / pack-lost / index-lost repositories must produce zero write/remove events; dry-run backup tree id == real one. distinct_nontrivial = distinct (refuse|allowed|dry, command kind, repository state)".to_string(),
